@@ -14,11 +14,12 @@
     decFinish    the second of the two effects; then `break` (if `sk.stDecoderExitsOnErr`) or loop on
     handReq      rendezvous `requests <- *msg.Request`  ×  `case request := <-requests` (request loop)
     handRes      rendezvous `responses <- *msg.Response` × `case response := <-responses` (response loop)
-    decAbort c   (only if `sk.stHandoffGuarded`) the hand-off send sits in a select with the link
-                 context; the context is done: the decoder leaves.  Whether it first signals the
-                 readers (`decodeErr = ctx.Err(); close(decodeDone)`, c = true — what the repaired
-                 source does) or just returns (c = false) is not recorded in the skeleton, so
-                 both are steps of the model (see the note on `stAbortClosesDone` below)
+    decAbort c   (only if `sk.stHandoffGuarded` and `c = sk.stAbortClosesDone`) the hand-off send
+                 sits in a select with the link context; the context is done: the decoder leaves.
+                 c = true: it first signals the readers (`decodeErr = ctx.Err(); close(decodeDone)`
+                 in the `case <-ctx.Done():` arm — what the repaired source does); c = false: it
+                 just returns.  Which of the two the source has is the fact `stAbortClosesDone`;
+                 the other one is not a step of the model
     readDoneReq / readDoneRes   `case <-decodeDone: return *new(T), decodeErr` (if `sk.stReadersSelectDone`);
                  LinkMessage's loop then reports the error and returns
     exitReq / exitRes  the loop leaves for any other reason (context cancelled, unmarshal error, …)
@@ -29,11 +30,12 @@
   `consumed`, `gotReq`, `gotRes`, `reqEnd`, `resEnd`, `lostReq`, `lostRes`.
   A decode error is identified by the number of the `decode` call that returned it.
 
-  Missing skeleton fact: `stAbortClosesDone : Bool` — in the `case <-ctx.Done():` arm of each
-  hand-off select, `decodeErr` is assigned and `decodeDone` closed before the return.  With it,
-  `decAbort c` would be enabled only for `c = sk.stAbortClosesDone`.  Until then the model
-  over-approximates: every safety theorem holds for both behaviours, the progress theorems use
-  `decAbort true` and `decoder_abort_enabled` shows that either is enabled.
+  Guard of `decAbort`: `stAbortClosesDone : Bool` says whether, in the `case <-ctx.Done():` arm of
+  each hand-off select, `decodeErr` is assigned and `decodeDone` closed before the return.
+  `decAbort c` is enabled only for `c = sk.stAbortClosesDone` (and only if `stHandoffGuarded`; on
+  a tree without the guard there is no abort at all and the flag is irrelevant).  Hence, for a
+  source with `stAbortClosesDone = true`, `dec = .done` implies that the readers have been told
+  (`done_signalled` in Lemmas/Stream.lean).
 -/
 import Panrpc.Go.Prim
 import Panrpc.Skeleton
@@ -156,7 +158,8 @@ def step (sk : Skeleton) (s : State) : Act → Option State
       | _ => none
     else none
   | .decAbort signal =>
-    if s.crashed = false ∧ sk.stHandoffGuarded = true ∧ s.linkCtxDone = true then
+    if s.crashed = false ∧ sk.stHandoffGuarded = true ∧ s.linkCtxDone = true ∧
+        signal = sk.stAbortClosesDone then
       match s.dec with
       | .handReq p next => some (abortWith signal { s with dec := .done, lostReq := [p], lostRes := next.toList })
       | .handRes q => some (abortWith signal { s with dec := .done, lostRes := [q] })
